@@ -28,7 +28,7 @@ CLAIMS = {
     "C06": dict(
         technique="property-based testing (rapid) against closed-form reference distances (profile reduction, per-axis clamping) and brute force over faces",
         text="Exploration. Random primitives (2D and 3D, arbitrary axes, aspect ratios to 1e3) x query points inside, outside, near the surface, on axes and at centres: sign vs Contains, |SDF| vs the reference distance (1e-9 relative), Lipschitz bound on all point pairs, PointSDF point on the boundary at distance |SDF|, NormalSDF unit and equal to the reference outward normal and to -grad SDF where the nearest point is unique and smooth; MeshToSDF (2D, 3D) against an exhaustive minimum over faces and winding-number sign, FaceSDF/NormalSDF against the unique nearest face; ProfileSDF/ProfilePointSDF against a case-split reference; ColliderToSDF and TransformSDF against the primitive's reference.",
-        note="Trusted: reference distances in harness/gen (independent decomposition; calibrated to 5e-14 against the library on 320k queries during design). Normal clauses are only asserted where the reference reports a unique smooth nearest point with margin. Known finding C06-cone-near-axis is excluded by construction while it persists.",
+        note="Trusted: reference distances in harness/gen (independent decomposition; calibrated to 5e-14 against the library on 320k queries during design). Normal clauses are only asserted where the reference reports a unique smooth nearest point with margin. The cone-near-axis defect found by this check is repaired (4e168fc); its class is generated again.",
         design="3/C06"),
     "C15": dict(
         technique="property-based round-trip testing (rapid) + native go fuzzing (thorough) with independent format encoders/decoders as second oracle",
@@ -38,7 +38,7 @@ CLAIMS = {
     "C07": dict(
         technique="property-based testing (rapid): reference roots of the reference distance along generated rays (sampling + bisection with measured general position), independent ray/triangle and ray/segment intersection, brute force over faces",
         text="Exploration. Primitive colliders (3D, 2D) x rays with origins inside/outside and directions scaled 1e-3..1e3: callback count = returned count = count with nil callback, parameters >= 0, unit normals equal to the reference outward normal on smooth pieces, hit points on the surface, FirstRayCollision = minimum and exists iff count > 0, collision parameters = reference roots of the signed distance along the ray, odd count iff the origin is inside; ball queries and ColliderContains with margins of either sign against the reference distance. Triangles and 2D segments against an independent intersection routine (ray, segment, ball). Mesh colliders (MeshToCollider, BVH, grouped, interpolated normals) against brute force over the faces with parity and face normals; joined, profile, solid-sampling and transformed colliders against their parts / reference / tolerance.",
-        note="Trusted: reference distances (gen.Shape3/Shape2.RefSDF) and kit intersection tests. Rays that are not in general position by the stated measurable rule (near-tangency, close roots, origin near the surface, hit near a face edge) are skipped and counted (about 1-2% of rays). Known finding cone-near-axis (ball queries) excluded by construction while it persists.",
+        note="Trusted: reference distances (gen.Shape3/Shape2.RefSDF) and kit intersection tests. Rays that are not in general position by the stated measurable rule (near-tangency, close roots, origin near the surface, hit near a face edge) are skipped and counted (about 1-2% of rays). The cone-near-axis defect (ball queries) is repaired (4e168fc); its class is generated again.",
         design="3/C07"),
     "C08": dict(
         technique="differential property-based testing (rapid): spatial index vs linear scan over the same objects with the library's own per-object primitive",
@@ -53,22 +53,22 @@ CLAIMS = {
     "C14": dict(
         technique="property-based testing (rapid) + exhaustive enumeration of small bitmap outlines with a cover/disjointness/area validity oracle",
         text="Exploration. Simple polygons by construction (convex, star, zigzag, monotone chains, combs, spirals; colinear runs; any start vertex, direction and rigid placement), regions with holes and nested islands, planar 3D faces in random planes, OFF files with polygonal faces, outlines of all 3x3 and 4x4 bitmaps: output vertices are input vertices, proper triangles lie inside the region, do not overlap, sum to the shoelace area and are clockwise where documented; ProfileMesh is a closed oriented manifold with volume = area x height.",
-        note="Trusted: kit polygon predicates with stated tolerances; zero-area triangles across colinear runs are exempt from the containment/overlap clauses. Three known findings (ear clipping with a vertex on the ear base, TriangulateFace basis from rounding noise, sliver panic) are excluded by construction while they persist.",
+        note="Trusted: kit polygon predicates with stated tolerances; zero-area triangles across colinear runs are exempt from the containment/overlap clauses. The three defects this check found (ear clipping with a vertex on the ear base, TriangulateFace basis from rounding noise, sliver panic) are repaired in /repo; their input classes are generated again.",
         design="3/C14"),
     "C16": dict(
         technique="fault-injection property-based testing (rapid: every truncation point, single-field corruptions, token-dictionary byte strings) + native go fuzzing (thorough) with a totality oracle",
         text="Exploration. Every prefix of harness-written valid STL/OFF/PLY/CSV files, single-field corruptions (counts, list lengths, indices, type names, removed properties, token edits, byte flips) and dictionary byte soup through ReadSTL/STLReader, ReadOFF/OFFReader, ReadColorPLY, PLYReader/NewPLYHeaderDecode and DecodeCSV under three reader behaviours: no panic, termination (watchdog; row APIs may not return 1e6 rows without consuming input), allocation <= 1 MiB + 64n + 2n^2 measured via TotalAlloc under RLIMIT_AS, and row-count accounting against the bytes present.",
-        note="Trusted: Go runtime memory statistics (calibrated, re-measured on excess). Known finding off-degenerate-polygon (ReadOFF panics through TriangulateFace) excluded by construction while it persists.",
+        note="Trusted: Go runtime memory statistics (calibrated, re-measured on excess). The ReadOFF degenerate-polygon panic this check found is repaired (be27299); degenerate polygon faces are generated again.",
         design="3/C16"),
     "C17": dict(
         technique="property-based testing (rapid) with planted solutions, defining equations and recording objectives",
         text="Exploration. Matrices built as Q1*diag(s)*Q2^T with |s| in [0.3,3] (ties, near ties, band-separated): inverses, SVD, eigenvalues, characteristic polynomial, rotations and orthonormal bases against planted factors / defining equations for the numerical and model2d/model3d implementations; least squares against the normal equations; random sparse SPD systems (n <= 60) through the permuted Cholesky factorisation and BiCGSTAB against their stated residuals; polynomials with planted separated real roots and irreducible quadratics (degree 1-8) plus scale-separated quadratics; line/grid/golden-section searches against a recording objective; CanonicalAngle/AngleDist against IEEE remainder; Bezier degree 1-16 against de Casteljau, splitting, polynomial form, inverse lookup and polyline length; SegmentCurve and JoinedCurve against a reference arc-length walk.",
-        note="Trusted: reference linear algebra in harness/c17, math/big-free closed forms. Tolerances for SVD/eigen/least squares are tabulated by the multiplicity of the largest cluster (roots of characteristic polynomials are only determined to eps^(1/m)). Four known findings (three in Matrix4.SVD, cubic root precision) are excluded by construction while they persist.",
+        note="Trusted: reference linear algebra in harness/c17, math/big-free closed forms. Tolerances for SVD/eigen/least squares are tabulated by the multiplicity of the largest cluster (roots of characteristic polynomials are only determined to eps^(1/m)). The four defects this check found (three in Matrix4.SVD, cubic root precision) are repaired in /repo; their input classes are generated again.",
         design="3/C17"),
     "C18": dict(
         technique="property-based testing (rapid) with partition / disc-topology / convex-combination / no-flip / disjointness / inverse-lookup invariants",
         text="Exploration. Closed meshes of genus 0-2, open discs and multi-component meshes (<= 600 faces in the quick tier): chart decomposition assigns every face pointer to exactly one chart, each chart is a connected edge-manifold disc within the requested limits; Floater97 over circle / p-norm / square boundaries with uniform, inverse-chord-length and shape-preserving weights puts boundary vertices where prescribed, interior vertices at the weighted mean of their neighbours, flips no triangle and preserves total area; the automatic atlas maps every face into [0,1]^2 with disjoint chart boxes; MapFn returns the same barycentric point of the corresponding face.",
-        note="Trusted: harness topology and barycentric arithmetic. Two known findings (stretch minimisation with all-boundary triangles, atlas cells smaller than the border) are excluded by construction while they persist.",
+        note="Trusted: harness topology and barycentric arithmetic. The two defects this check found (stretch minimisation with all-boundary triangles, atlas cells smaller than the border) are repaired in /repo; their input classes are generated again.",
         design="3/C18"),
     "C09": dict(
         technique="model-based (stateful) property testing with rapid: operation histories against a reference face list / Go map",
